@@ -61,6 +61,8 @@ def main():
                 res['checks'][p] = {'exit': rc, 'lines': lines, 'wall_s': round(time.time() - t, 1)}
         finally:
             sh('git -C /repo checkout -- .')
+            # evidence and regenerated Lean files written while the patch was applied are not evidence about /repo
+            sh('git -C /verif checkout -- evidence lean/ClockBound/Generated')
             rc, out = sh('git -C /repo status --short')
             if out.strip(): print('WARNING: /repo not clean:', out)
     res['ran'] = ran
